@@ -30,7 +30,8 @@ pub fn sample_cfg(r: &mut Rng) -> EndpointCfg {
         c.max_receive_rate = r.log_range(1472, 50_000_000);
     }
     if r.chance(0.4) {
-        c.max_receive_alloc = match r.below(3) {
+        c.max_receive_alloc = match r.below(4) {
+            3 => r.range(2, 40) * FRAG,
             0 => r.range(2_000, 50_000),
             1 => r.range(50_000, 1_000_000),
             _ => r.range(1_000_000, 4_000_000),
